@@ -61,6 +61,9 @@ func (fc *FnCtx) instr(in ssa.Instruction, st *State) {
 		if v.T != nil {
 			v = fc.retype(v, x.Type())
 		}
+		if _, isPtr := x.Type().Underlying().(*types.Pointer); isPtr && !types.Identical(x.Type(), x.X.Type()) {
+			v.Conv = true
+		}
 		fc.vals[x] = v
 	case *ssa.ChangeInterface:
 		v := fc.val(x.X)
@@ -645,11 +648,18 @@ func (fc *FnCtx) makeInterface(x *ssa.MakeInterface, st *State, g *smt.Term, whe
 	xt := x.X.Type()
 	switch kindOf(xt) {
 	case KRef, KPtr:
-		if _, isPtr := xt.Underlying().(*types.Pointer); isPtr {
+		if _, isPtr := xt.Underlying().(*types.Pointer); isPtr && !v.Conv {
 			ref := fc.term(v)
 			// a nil pointer in an interface is a non-nil interface: the model identifies
 			// the interface with the pointer, so this must not happen.
-			fc.safety("typed-nil", g, smt.Neq(ref, smt.IntLit(0)), where)
+			if isErrorIface(x.Type()) {
+				fc.safety("typed-nil", g, smt.Neq(ref, smt.IntLit(0)), where)
+			} else {
+				// a nil pointer boxed in a non-error interface (fmt arguments, any): the box is
+				// non-nil in Go; the model keeps the pointer value, which only matters for == nil
+				// tests on the interface, absent for these uses
+				fc.abstr("nil-able pointer boxed in a non-error interface")
+			}
 			fc.assume(g, smt.Eq(fc.dtype(ref), fc.typeID(xt)), "")
 			r := Val{T: ref, GoT: x.Type(), Clo: v.Clo}
 			fc.boxes[ref.String()] = boxInfo{v, xt}
@@ -728,6 +738,9 @@ func (fc *FnCtx) ret(x *ssa.Return, st *State, g *smt.Term, where string) {
 	if fc.C == nil {
 		return
 	}
+	if !fc.dry && fc.inline == nil {
+		fc.Obligs = append(fc.Obligs, Oblig{Fn: fc.Name, Name: fc.Name + "/reachable-return@" + where, Kind: "reachability", Guard: g, Goal: smt.False, Pos: fc.S.Len(), Where: where, Vacuity: true})
+	}
 	vars := map[string]Val{}
 	for k, v := range fc.params {
 		vars[k] = v
@@ -796,4 +809,17 @@ func (fc *FnCtx) explicitPanic(x *ssa.Panic, st *State, g *smt.Term, where strin
 		return
 	}
 	fc.safety("panic", g, smt.False, where)
+}
+
+func isErrorIface(t types.Type) bool {
+	it, ok := t.Underlying().(*types.Interface)
+	if !ok {
+		return false
+	}
+	for i := 0; i < it.NumMethods(); i++ {
+		if it.Method(i).Name() == "Error" {
+			return true
+		}
+	}
+	return false
 }
